@@ -34,6 +34,9 @@ def get_annotation_typestr(field: Union[BaseField, Type, str]) -> str:
         storage_type = field
     elif field is None:
         storage_type = "None"
+    elif hasattr(field, "__origin__") or hasattr(field, "__args__"):
+        # a generic alias or union, such as List[int], Optional[str] or int | None
+        storage_type = field
     else:
         raise TypeError("Unknown storage_type: %s" % type(field))
 
